@@ -57,6 +57,20 @@ def make_task(rng, kind):
     return t
 
 
+def make_permuted(rng):
+    """hybrid shard on a mesh whose replicate dimension is not ascending, at least two trainers per group"""
+    for _ in range(50):
+        t = make_task(rng, "hybrid")
+        if t["R"] >= 2:
+            t["GS"] = rng.choice([d for d in (2, 4) if t["R"] % d == 0])
+            rows = list(range(t["R"]))
+            while rows == sorted(rows):
+                rng.shuffle(rows)
+            t["mesh_rows"] = rows
+            return t
+    return t
+
+
 def attach_spec(tasks):
     exp, _ = tlc.oracle("Dim0Oracle", ORACLE, [{"shapes": t["shapes"], "S": t["S"]} for t in tasks], tag="C08-o")
     for t, e in zip(tasks, exp):
@@ -78,7 +92,8 @@ def run(ctx):
         ctx.add_tlc(r, f"ShampooDist (one replicate column) R={W} GS={GS}")
         if not r.ok:
             raise tlc.TLCMachineryError(f"ShampooDist column model violates {r.violated}")
-    tasks = attach_spec([make_task(rng, "fully") for _ in range(40 if quick else 400)] + [make_task(rng, "hybrid") for _ in range(30 if quick else 300)])
+    tasks = attach_spec([make_task(rng, "fully") for _ in range(40 if quick else 400)] + [make_task(rng, "hybrid") for _ in range(30 if quick else 300)]
+                        + [make_permuted(rng) for _ in range(6 if quick else 40)])
     tasks = [t for t in tasks if C07.usable(t)]
     results = sp.sim_map(dc.run_dtensor_task, tasks, lambda r: bool(r.get("crash") or r.get("verdict") or r.get("param_mismatch") or any((r.get("errors") or {}).values())))
     ctx.put("worlds_not_reproduced_on_rerun", sum(1 for r in results if r.get("_flaky_first_run")))
